@@ -11,6 +11,7 @@
 From Coq Require Import ZArith List Bool.
 Import ListNotations.
 Require Import Grist.Model.Trigger Grist.Proofs.Trigger_proofs.
+Require Import Grist.Lib.TrigEff GristGen.Trigger_gen Grist.Proofs.Trigger_bridge Grist.Proofs.Trigger_bridge2.
 Open Scope Z_scope.
 
 (* The property at full strength: for all configurations, tables (hence all histories) and bundles, the
@@ -220,4 +221,118 @@ Example C15_unconstrained_zone :
   (let t := mechanism gF [three_rows; [UUpd [2] [(1, [(2, 2)])]]] in
    let b := [UUpd [2] [(1, [(2, 3)])]] in
    unconstrained gF t b 1 = true /\ memz 1 (fired gF t b) = true).
+Proof. vm_compute. repeat split; reflexivity. Qed.
+
+(* ================================================================ THE CODE (coq/gen/Trigger_gen.v)
+   The functions gen_* are translated from /repo/sandbox/grist on every run (harness/tg2v.py): schema.RecalcWhen,
+   docmodel recalcOnChangesToSelf, relation.SingleRowsIdentityRelation.get_affected_rows, column.is_formula,
+   Engine.prevent_recalc / trim_update_action / invalidate_column / invalidate_records / add_records /
+   _maybe_update_trigger_dependencies, DocActions.Bulk{Add,Update,Remove}Record and the trigger parts of
+   UserActions.doBulkAddOrReplace / doBulkUpdateRecord (the rest of those functions is pinned statement by statement).
+   The obligations below say, pointwise, that the generated code is the hand model; an edit of the translated code
+   changes a gen_* definition and breaks one of them. *)
+Theorem C15_bridge_recalc_when :
+  RecalcWhen_DEFAULT = when_code DEFAULT /\ RecalcWhen_NEVER = when_code NEVER /\
+  RecalcWhen_MANUAL_UPDATES = when_code MANUAL_UPDATES.
+Proof. exact bridge_recalc_when. Qed.
+
+Theorem C15_bridge_recalcOnChangesToSelf : forall g, gen_recalcOnChangesToSelf (trigger_col g) = selfdep g.
+Proof. exact bridge_recalcOnChangesToSelf. Qed.
+
+Theorem C15_bridge_get_affected_rows :
+  gen_get_affected_rows AllRows = Rows [] /\ forall l, gen_get_affected_rows (Rows l) = Rows l.
+Proof. exact bridge_get_affected_rows. Qed.
+
+Theorem C15_bridge_is_formula : forall b, gen_is_formula b = b.
+Proof. exact bridge_is_formula. Qed.
+
+Theorem C15_bridge_prevent_recalc : forall r S rows b,
+  zmem r (gen_prevent_recalc S rows b) = if b then zmem r S || zmem r rows else zmem r S && negb (zmem r rows).
+Proof. exact bridge_prevent_recalc. Qed.
+
+Theorem C15_bridge_trim_update_action : forall t cols0 recs,
+  let a' := gen_trim_update_action (fun col r => cell t r col) (columnar cols0 recs) in
+  act_rows a' = ids (trim_recs t (trim_cols t cols0 recs) recs) /\ keys (act_cols a') = trim_cols t cols0 recs.
+Proof. exact bridge_trim_update_action. Qed.
+
+Theorem C15_bridge_trigger_dependencies : forall g cols, cols_ok g cols ->
+  edge_sources (gen_trigger_dependencies cols false) = (if is_default g then deps g else []) /\
+  gen_trigger_dependencies cols true = [].
+Proof. exact bridge_trigger_dependencies. Qed.
+
+Theorem C15_bridge_doc_BulkAddRecord : forall g cols m c recs cv, cols_ok g cols -> fx_add (fx g) = false ->
+  meq (run_effs g m (gen_doc_BulkAddRecord cols (ids recs) cv)) (mech_doc g m (DAdd c recs)).
+Proof. exact bridge_doc_BulkAddRecord. Qed.
+
+Theorem C15_bridge_doc_BulkUpdateRecord : forall g cols m columns recs, cols_ok g cols ->
+  (forall c, In c (keys columns) -> In c (map ci_id cols)) ->
+  meq (run_effs g m (gen_doc_BulkUpdateRecord cols (ids recs) columns)) (mech_doc g m (DUpd (keys columns) recs)).
+Proof. exact bridge_doc_BulkUpdateRecord. Qed.
+
+Theorem C15_bridge_doc_BulkRemoveRecord : forall g cols m rs, cols_ok g cols ->
+  meq (run_effs g m (gen_doc_BulkRemoveRecord cols (fun l => l) rs)) (mech_doc g m (DRem rs)).
+Proof. exact bridge_doc_BulkRemoveRecord. Qed.
+
+Theorem C15_bridge_doBulkAddOrReplace : forall g cols t m cv recs, cols_ok g cols -> fx_add (fx g) = false ->
+  meq (run_effs g m (gen_doBulkAddOrReplace cols false (ids recs) cv)) (mech_user g t m (UAdd (keys cv) recs)).
+Proof. exact bridge_doBulkAddOrReplace. Qed.
+
+Theorem C15_bridge_doBulkUpdateRecord : forall g cols t m cols0 recs, cols_ok g cols -> fx_trim (fx g) = false ->
+  (forall c, In c cols0 -> In c (map ci_id cols)) ->
+  meq (run_effs g m (gen_doBulkUpdateRecord cols (fun col r => cell t r col) (fun l => l) (fun a => a)
+                                            (ids recs) (snd (columnar cols0 recs))))
+      (mech_user g t m (UUpd cols0 recs)).
+Proof. exact bridge_doBulkUpdateRecord. Qed.
+
+(* the whole bundle: the rows for which the code-level mechanism evaluates the trigger formula *)
+Theorem C15_bridge_code_fires : forall g cols t b, cols_ok g cols -> fx g = no_fixes -> Forall (act_cols_ok cols) b ->
+  cfired g cols t b = fired g t b.
+Proof. exact cfired_is_fired. Qed.
+
+(* ---------------------------------------------------------------- the property, about the generated code *)
+Theorem C15_code_trigger_fires_iff_partial : forall g cols t b r,
+  cols_ok g cols -> fx g = no_fixes -> Forall (act_cols_ok cols) b -> regular g t b = true ->
+  In r (rows (step g t b)) -> unconstrained g t b r = false -> memz r (cfired g cols t b) = spec g t b r.
+Proof. intros g cols t b r Hok Hfx Hb. rewrite (cfired_is_fired g cols t b Hok Hfx Hb). apply fires_iff_spec. Qed.
+
+Theorem C15_code_fired_between_bounds_partial : forall g cols t b r,
+  cols_ok g cols -> fx g = no_fixes -> Forall (act_cols_ok cols) b -> regular g t b = true ->
+  (must g t b r = true -> In r (rows (step g t b)) -> In r (cfired g cols t b)) /\
+  (In r (cfired g cols t b) -> may g t b r = true /\ In r (rows (step g t b))).
+Proof.
+  intros g cols t b r Hok Hfx Hb. rewrite (cfired_is_fired g cols t b Hok Hfx Hb). apply C15_fired_between_bounds_partial.
+Qed.
+
+Theorem C15_code_single_update_fires_iff : forall g cols t cs recs r,
+  cols_ok g cols -> fx g = no_fixes -> (forall x, In x cs -> In x (map ci_id cols)) -> memz trc cs = false ->
+  In r (rows (step g t [UUpd cs recs])) -> unconstrained g t [UUpd cs recs] r = false ->
+  memz r (cfired g cols t [UUpd cs recs]) = spec g t [UUpd cs recs] r.
+Proof.
+  intros g cols t cs recs r Hok Hfx Hc Ht. rewrite (cfired_is_fired g cols t _ Hok Hfx); [|repeat constructor; exact Hc].
+  apply C15_single_update_fires_iff. exact Ht.
+Qed.
+
+Theorem C15_code_single_add_fires_iff : forall g cols t cs recs r,
+  cols_ok g cols -> fx g = no_fixes -> memz trc cs = false ->
+  In r (rows (step g t [UAdd cs recs])) -> unconstrained g t [UAdd cs recs] r = false ->
+  memz r (cfired g cols t [UAdd cs recs]) = spec g t [UAdd cs recs] r.
+Proof.
+  intros g cols t cs recs r Hok Hfx Ht. rewrite (cfired_is_fired g cols t _ Hok Hfx); [|repeat constructor].
+  apply C15_single_add_fires_iff. exact Ht.
+Qed.
+
+(* the table of the harness (columns 0 = trigger, 1..3 data, 4 and 5 formula) satisfies cols_ok, for each configuration
+   used above; and on it the code-level mechanism computes the refuting witnesses too *)
+Definition harness_cols (g : cfg) : list colinfo :=
+  [plain_col 1; plain_col 2; plain_col 3; formula_col 4; formula_col 5; trigger_col g].
+Example C15_cols_ok_examples :
+  cols_ok gA (harness_cols gA) /\ cols_ok gF (harness_cols gF) /\ cols_ok gSelf (harness_cols gSelf) /\
+  cols_ok gNever (harness_cols gNever) /\ cols_ok gManual (harness_cols gManual).
+Proof. repeat match goal with |- _ /\ _ => split end; apply cols_okb_ok; vm_compute; reflexivity. Qed.
+
+Example C15_code_witnesses :
+  cfired gA (harness_cols gA) empty_tbl [UAdd [1; 0] [(1, [(1, 3); (0, 50)])]] = [1] /\
+  cfired gA (harness_cols gA) (mechanism gA [three_rows]) [UUpd [1; 0] [(1, [(1, 5); (0, 77)])]; UUpd [2] [(2, [(2, 1)])]] = [1] /\
+  cfired gA (harness_cols gA) (mechanism gA [three_rows]) [UDocs [DRename 1]; UUpd [1] [(1, [(1, 100)])]] = [] /\
+  cfired gF (harness_cols gF) (mechanism gF [three_rows]) [UUpd [0; 2] [(1, [(0, 1); (2, 9)])]] = [1].
 Proof. vm_compute. repeat split; reflexivity. Qed.
